@@ -1,7 +1,8 @@
-(* C16 — JSON round trip preserves meaning, explicit ids and signs.
+(* C16 — JSON round trip preserves meaning, leaves, explicit ids, signs and defaults.
    Only statements, `exact`, non-vacuity examples, refutation witnesses and Print Assumptions live here.
-   Model side: Json.to_json / Json.from_json (every class of puan.logic.plog, after fixes D5, D7, D9; fuelled,
-   a `Some` result excludes fuel exhaustion and malformed documents), Cons.build (the constructors).
+   Model side: Json.to_json / Json.from_json / Json.stingy_from_json (every class of puan.logic.plog and
+   puan.modules.configurator, after fixes D5, D7, D9; fuelled: a `Some` result excludes fuel exhaustion and
+   malformed documents), Cons.build (the constructors), for an ARBITRARY id generator genid.
    Spec side: Sem.eval / Sem.ok (arithmetic truth function, leaf values within bounds) and
    JsonFacts.jsem — the arithmetic meaning of a DOCUMENT, which mentions neither to_json nor from_json:
      variable            -> env id           (defined only when the value is within the documented bounds)
@@ -13,13 +14,19 @@
      XNor                -> [S <> 1]
      Not                 -> 1 - operand       (a bare variable operand x stands for All(x) = [1 <= x])
      Imply               -> [1 <= (1 - condition) + consequence]   (same convention for a bare variable condition)
-   where S is the sum of the meanings of the "propositions".
-   Shape predicates (JsonFacts): cls_inv p — every class tag of p keeps its promise (AtMost has sign -1, All has
-   value = number of children and the default sign, Any is [1 <= S], Xor is All over [AtLeast 1 X; AtMost 1 X],
-   Imply has two children with its stored condition a compound, ...); xnor_flat p — the operands of every XNor
-   are leaves (excludes finding D6); all_unmerged genid cfg n j — no All(...) rebuilt by from_json has two
-   arguments merged by the set() in All.__init__ (true whenever rebuilt sibling ids are distinct; needed because
-   the id generator is arbitrary here, so generated ids of rebuilt siblings may collide). *)
+   where S is the sum of the meanings of the "propositions"; JsonFacts.jleaves — the (id, bounds) of the
+   variables a document mentions; JsonFacts.pleaves — the (id, bounds) of every leaf occurrence of a model.
+   Shape predicates (JsonFacts): cls_inv_g cc p — every class tag of p keeps its promise (AtMost has sign -1,
+   All has value = number of children and the default sign, Any is [1 <= S], Xor is All over
+   [AtLeast 1 X; AtMost 1 X], Imply has two children with its stored condition a compound, cc.Any is
+   Any(default, Any(rest)) or a plain Any, cc.Xor with a default is All over [cc.Any X; AtMost 1 X]);
+   cc = false (notation cls_inv): plog classes only, cc = true: configurator classes allowed;
+   xnor_flat p — the operands of every XNor are leaves (excludes finding D6);
+   all_unmerged genid cfg n j / stingy_unmerged — no All(...) rebuilt by from_json has two arguments merged by
+   the set() in All.__init__ (true whenever rebuilt sibling ids are distinct; needed because the id generator is
+   arbitrary here, so generated ids of rebuilt siblings may collide).
+   For configurators the assignment is non-negative (forall i, 0 <= env i): cc.Any's nested form
+   Any(default, Any(rest)) equals the flat disjunction the document states only over non-negative operands. *)
 Require Import Puan.Base Puan.Plog Puan.Sem Puan.Cons Puan.Json Puan.JsonFacts.
 Open Scope list_scope.
 Open Scope string_scope.
@@ -52,24 +59,31 @@ Print Assumptions C16_sign.
 
 (* ---- the document of a model means what the model evaluates to ---- *)
 Theorem C16_to_json_sem :
-  forall (genid : genid_t) (env : ident -> Z) (n : nat) (p : prop) (j : json),
-    to_json genid n p = Some j -> cls_inv p -> xnor_flat p -> ok env p ->
+  forall (genid : genid_t) (cc : bool) (env : ident -> Z),
+    (cc = true -> forall i : ident, 0 <= env i) ->
+    forall (n : nat) (p : prop) (j : json),
+    to_json genid n p = Some j -> cls_inv_g cc p -> xnor_flat p -> ok env p ->
     jsem env n j = Some (eval env p).
 Proof. exact to_json_sem. Qed.
 Print Assumptions C16_to_json_sem.
 
 (* ---- the model rebuilt from a document evaluates to what the document means (any document, not
-   only to_json outputs; class map of plog.from_json) ---- *)
+   only to_json outputs; cfg = false: class map of plog.from_json, cfg = true: of StingyConfigurator.from_json) ---- *)
 Theorem C16_from_json_sem :
-  forall (genid : genid_t) (env : ident -> Z) (n m : nat) (j : json) (p' : prop) (v : Z),
-    from_json genid false n j = Some p' -> jsem env m j = Some v -> all_unmerged genid false n j = true ->
+  forall (genid : genid_t) (env : ident -> Z) (cfg : bool),
+    (cfg = true -> forall i : ident, 0 <= env i) ->
+    forall (n m : nat) (j : json) (p' : prop) (v : Z),
+    from_json genid cfg n j = Some p' -> jsem env m j = Some v -> all_unmerged genid cfg n j = true ->
     eval env p' = v /\ ok env p'.
 Proof.
-  intros genid env n m j p' v H1 H2 H3. destruct (from_json_sem genid env n m j p' v H1 H2 H3) as (E & O & _). exact (conj E O).
+  intros genid env cfg Hc n m j p' v H1 H2 H3. destruct (from_json_sem genid env cfg Hc n m j p' v H1 H2 H3) as (E & O & _). exact (conj E O).
 Qed.
 Print Assumptions C16_from_json_sem.
 
-(* ---- semantic round trip, every plog class, any nesting, integer leaves, explicit signs, any id generator ---- *)
+(* ---- semantic round trip, every plog class, any nesting, integer leaves, explicit signs, any id generator.
+   The explicit guard all_unmerged is exactly what excludes the evaluation-changing face of finding D15 (two valid
+   siblings of an All that get the same generated id after the round trip and are merged by All's set(); witness
+   C16_merge_refuted); xnor_flat excludes finding D6 (witness C16_xnor_refuted). ---- *)
 Theorem C16_sem :
   forall (genid : genid_t) (env : ident -> Z) (n n' : nat) (p : prop) (j : json) (p' : prop),
     to_json genid n p = Some j -> from_json genid false n' j = Some p' ->
@@ -78,45 +92,115 @@ Theorem C16_sem :
 Proof. intros genid env n n' p j p'. exact (roundtrip_sem genid env n n' p j p'). Qed.
 Print Assumptions C16_sem.
 
-(* ---- ids through the round trip: a generated id stays generated, an explicit id is kept ---- *)
+(* ---- ids through the round trip (both class maps; and the configurator's own id): a generated id stays
+   generated, an explicit id is kept ---- *)
 Theorem C16_id_roundtrip :
-  forall (genid : genid_t) (n n' : nat) (p : prop) (j : json) (p' : prop),
-    to_json genid n p = Some j -> from_json genid false n' j = Some p' ->
+  forall (genid : genid_t) (cfg : bool) (n n' : nat) (p : prop) (j : json) (p' : prop),
+    to_json genid n p = Some j -> from_json genid cfg n' j = Some p' ->
     gen_of p' = gen_of p /\ (gen_of p = false -> id_of p' = id_of p).
-Proof. exact roundtrip_id. Qed.
+Proof. exact roundtrip_id_g. Qed.
 Print Assumptions C16_id_roundtrip.
+Theorem C16_cfg_id :
+  forall (genid : genid_t) (n n' : nat) m i g lo hi s v ch (j : json) (p' : prop),
+    m_cls m = KStingy ->
+    to_json genid n (Node m i g lo hi s v ch) = Some j -> stingy_from_json genid n' j = Some p' ->
+    gen_of p' = g /\ (g = false -> id_of p' = i).
+Proof. exact roundtrip_id_stingy. Qed.
+Print Assumptions C16_cfg_id.
 
 (* ---- same leaf variables with the same bounds (pleaves: the (id, bounds) of every leaf occurrence) ---- *)
 Theorem C16_leaves :
-  forall (genid : genid_t) (n n' : nat) (p : prop) (j : json) (p' : prop),
-    to_json genid n p = Some j -> from_json genid false n' j = Some p' -> cls_inv p -> xnor_flat p ->
+  forall (genid : genid_t) (cc cfg : bool) (n n' : nat) (p : prop) (j : json) (p' : prop),
+    to_json genid n p = Some j -> from_json genid cfg n' j = Some p' -> cls_inv_g cc p -> xnor_flat p ->
     forall x : ident * (Z * Z), In x (pleaves p') <-> In x (pleaves p).
 Proof. exact roundtrip_leaves. Qed.
 Print Assumptions C16_leaves.
 
 (* ---- the constructors produce models that satisfy the shape hypotheses of C16_sem ---- *)
 Theorem C16_shapes :
-  forall (genid : genid_t) (env : ident -> Z) (f : form),
-    (jwf genid f -> cls_inv (build genid f)) /\
+  forall (genid : genid_t) (cc : bool) (env : ident -> Z) (f : form),
+    (jwf genid cc f -> cls_inv_g cc (build genid f)) /\
     (xnor_leaves f -> xnor_flat (build genid f)) /\
     (fok env f -> ok env (build genid f)).
 Proof.
-  intros genid env f. split; [exact (build_cls_inv genid f)|]. split; [exact (build_xnor_flat genid f)|exact (build_ok genid env f)].
+  intros genid cc env f. split; [exact (build_cls_inv genid cc f)|]. split; [exact (build_xnor_flat genid f)|exact (build_ok genid env f)].
 Qed.
 Print Assumptions C16_shapes.
 
 (* ---- hence: semantic round trip of every constructor output ---- *)
 Theorem C16_sem_build :
   forall (genid : genid_t) (env : ident -> Z) (n n' : nat) (f : form) (j : json) (p' : prop),
-    jwf genid f -> xnor_leaves f -> fok env f ->
+    jwf genid false f -> xnor_leaves f -> fok env f ->
     to_json genid n (build genid f) = Some j -> from_json genid false n' j = Some p' ->
     all_unmerged genid false n' j = true ->
     eval env p' = eval env (build genid f).
 Proof.
   intros genid env n n' f j p' Hw Hx Ho H1 H2 Hg.
-  exact (proj1 (roundtrip_sem genid env n n' (build genid f) j p' H1 H2 (build_cls_inv genid f Hw) (build_xnor_flat genid f Hx) (build_ok genid env f Ho) Hg)).
+  exact (proj1 (roundtrip_sem genid env n n' (build genid f) j p' H1 H2 (build_cls_inv genid false f Hw) (build_xnor_flat genid f Hx) (build_ok genid env f Ho) Hg)).
 Qed.
 Print Assumptions C16_sem_build.
+
+(* ---- configurators ---- *)
+(* a rule of a configurator (class map of StingyConfigurator.from_json: "Any"/"Xor" are cc.Any/cc.Xor) *)
+Theorem C16_cfg_rule :
+  forall (genid : genid_t) (env : ident -> Z), (forall i : ident, 0 <= env i) ->
+    forall (n n' : nat) (p : prop) (j : json) (p' : prop),
+    to_json genid n p = Some j -> from_json genid true n' j = Some p' ->
+    cls_inv_g true p -> xnor_flat p -> ok env p -> all_unmerged genid true n' j = true ->
+    eval env p' = eval env p /\ ok env p'.
+Proof. exact roundtrip_sem_cfg. Qed.
+Print Assumptions C16_cfg_rule.
+
+(* a whole StingyConfigurator through to_json / StingyConfigurator.from_json: same evaluation, same leaves.
+   The full statement of DESIGN's C16_cfg would add
+     default_prios p' = default_prios p  and  to_ge_polyhedron true p' = to_ge_polyhedron true p;
+   that part is FALSE of the model (and of the code: finding D15) — see C16_cfg_ids_refuted below — hence `_partial`.
+   It can only hold "up to the renaming of generated ids"; that weaker form is NOT proved here (it needs a structural
+   isomorphism between p and p', which fails across Imply conditions and inward-pushed negations). *)
+Theorem C16_cfg_partial :
+  forall (genid : genid_t) (env : ident -> Z), (forall i : ident, 0 <= env i) ->
+    forall (n n' : nat) m i g lo hi s v ch (j : json) (p' : prop),
+    m_cls m = KStingy ->
+    to_json genid n (Node m i g lo hi s v ch) = Some j -> stingy_from_json genid n' j = Some p' ->
+    cls_inv_g true (Node m i g lo hi s v ch) -> xnor_flat (Node m i g lo hi s v ch) -> ok env (Node m i g lo hi s v ch) ->
+    stingy_unmerged genid n' j = true ->
+    (eval env p' = eval env (Node m i g lo hi s v ch) /\ ok env p') /\
+    (forall x : ident * (Z * Z), In x (pleaves p') <-> In x (pleaves (Node m i g lo hi s v ch))).
+Proof.
+  intros genid env Hn n n' m i g lo hi s v ch j p' Ec H1 H2 Hc Hx Ho Hg. split.
+  - exact (roundtrip_stingy genid env Hn n n' m i g lo hi s v ch j p' Ec H1 H2 Hc Hx Ho Hg).
+  - exact (roundtrip_stingy_leaves genid n n' m i g lo hi s v ch j p' Ec H1 H2 Hc Hx).
+Qed.
+Print Assumptions C16_cfg_partial.
+
+(* the default list of every cc.Any / cc.Xor rule is kept (dflt_valid: lower <= upper for each default variable) *)
+Theorem C16_cfg_default :
+  forall (genid : genid_t) (n n' : nat) m i g lo hi s v ch (j : json) (p' : prop),
+    m_cls m = KCcAny \/ m_cls m = KCcXor -> dflt_valid (m_default m) ->
+    to_json genid n (Node m i g lo hi s v ch) = Some j -> from_json genid true n' j = Some p' ->
+    m_default (meta_of p') = m_default m.
+Proof. exact roundtrip_default. Qed.
+Print Assumptions C16_cfg_default.
+
+(* the same for every configurator built by the constructors (jwf genid true: All/Stingy arguments are not merged,
+   at most one operand of a cc.Xor is its default variable) *)
+Theorem C16_cfg_build :
+  forall (genid : genid_t) (env : ident -> Z), (forall i : ident, 0 <= env i) ->
+    forall (n n' : nat) (o : oid_t) (l : list form) (j : json) (p' : prop),
+    jwf genid true (FStingy o l) -> xnor_leaves (FStingy o l) -> fok env (FStingy o l) ->
+    to_json genid n (build genid (FStingy o l)) = Some j -> stingy_from_json genid n' j = Some p' ->
+    stingy_unmerged genid n' j = true ->
+    eval env p' = eval env (build genid (FStingy o l)) /\
+    (forall x : ident * (Z * Z), In x (pleaves p') <-> In x (pleaves (build genid (FStingy o l)))).
+Proof. exact roundtrip_stingy_build. Qed.
+Print Assumptions C16_cfg_build.
+
+(* What is missing for the property text "same default priorities and polyhedron": both are keyed by the ids of the
+   sub-propositions, and the id of a GENERATED node is not stable under the round trip when its sign was passed
+   explicitly but equals the default for its value (to_json omits it, from_json rebuilds with the sign argument
+   absent, and _id_generator hashes the sign ARGUMENT) — every negate() / Not(...) result is such a node.
+   This is finding D15; C16_cfg_ids_refuted is the witness; evaluation, leaves and bounds, explicit ids and default
+   lists are proved. *)
 
 (* ---- witnesses ---- *)
 Definition c16_ones (p : positive) : string := String.concat "" (map (fun _ => "i") (seq 0 (Pos.to_nat p))).
@@ -132,7 +216,7 @@ Definition c16_x : form := FXNor None [FAny None [FLeaf "a" 0 1; FLeaf "b" 0 1];
 Definition c16_xenv : ident -> Z := fun i => if String.eqb i "c" then 1 else if String.eqb i "d" then 1 else 0.
 Theorem C16_xnor_refuted :
   exists (genid : genid_t) (f : form) (env : ident -> Z) (j : json) (p' : prop),
-    jwf genid f /\ fok env f /\ cls_inv (build genid f) /\
+    jwf genid false f /\ fok env f /\ cls_inv (build genid f) /\
     to_json genid 10 (build genid f) = Some j /\ from_json genid false 10 j = Some p' /\
     all_unmerged genid false 10 j = true /\
     eval env (build genid f) = 1 /\ eval env p' = 0.
@@ -161,6 +245,52 @@ Proof.
 Qed.
 Print Assumptions C16_prefixed_refuted.
 
+(* finding D15, id face (generated ids are not stable): StingyConfigurator(Not(All(a,b)), id="cfg").  The Not result carries
+   sign -1 = the default for value -1, so the document has no "sign"; the rebuilt node asks the id generator with
+   sign None instead of -1 and (for any generator that looks at the sign argument, as SHA-256 of the string does)
+   gets another id: the column ids of the polyhedron of the round-tripped configurator differ. *)
+Definition c16_nf : form := FStingy (Some ("cfg", (0, 1))) [FNot (FAll None [FLeaf "a" 0 1; FLeaf "b" 0 1])].
+Theorem C16_cfg_ids_refuted :
+  exists (genid : genid_t) (f : form) (j : json) (p' : prop),
+    jwf genid true f /\ xnor_leaves f /\
+    to_json genid 10 (build genid f) = Some j /\ stingy_from_json genid 10 j = Some p' /\
+    stingy_unmerged genid 10 j = true /\
+    map fst (columns true (build genid f)) = ["Va_b#nini"; "a"; "b"] /\
+    map fst (columns true p') = ["Va_b#niN"; "a"; "b"] /\
+    snd (to_ge_polyhedron true p') = snd (to_ge_polyhedron true (build genid f)).
+Proof.
+  exists c16_g, c16_nf. eexists. eexists.
+  split; [unfold c16_nf; cbn [jwf]; repeat split; vm_compute; reflexivity|]. split; [vm_compute; tauto|].
+  split; [vm_compute; reflexivity|]. split; [vm_compute; reflexivity|].
+  vm_compute. auto 10.
+Qed.
+Print Assumptions C16_cfg_ids_refuted.
+
+(* finding D15, evaluation-changing face — the guard all_unmerged is NECESSARY (same root cause as the id instability,
+   plus All.__init__'s len(set(..))):
+   T = All(AtLeast(2,[a,b],sign=+), AtLeast(2,[a,b]), y).  The two AtLeast children have different generated ids (the
+   sign argument differs), so the model is valid and has value 3; after the round trip both are rebuilt without a sign
+   argument, get the same id, All's set() merges them and the value becomes 2: at a=b=1, y=0 the original is 0 and the
+   round-tripped model is 1.  Replayed on the real code: evaluate gives (0,0) before and (1,1) after. *)
+Definition c16_mf : form :=
+  FAll (Some ("T", (0, 1))) [FAtLeast None 2 (Some 1) [FLeaf "a" 0 1; FLeaf "b" 0 1]; FAtLeast None 2 None [FLeaf "a" 0 1; FLeaf "b" 0 1]; FLeaf "y" 0 1].
+Definition c16_menv : ident -> Z := fun i => if String.eqb i "y" then 0 else 1.
+Theorem C16_merge_refuted :
+  exists (genid : genid_t) (f : form) (env : ident -> Z) (j : json) (p' : prop),
+    jwf genid false f /\ xnor_leaves f /\ fok env f /\
+    to_json genid 10 (build genid f) = Some j /\ from_json genid false 10 j = Some p' /\
+    all_unmerged genid false 10 j = false /\
+    value_of (build genid f) = 3 /\ value_of p' = 2 /\
+    eval env (build genid f) = 0 /\ eval env p' = 1.
+Proof.
+  exists c16_g, c16_mf, c16_menv. eexists. eexists.
+  split; [unfold c16_mf; cbn [jwf]; repeat split; vm_compute; reflexivity|]. split; [vm_compute; tauto|].
+  split; [unfold c16_mf; cbn [fok]; repeat split; try (vm_compute; discriminate); auto|].
+  split; [vm_compute; reflexivity|]. split; [vm_compute; reflexivity|].
+  vm_compute. auto 10.
+Qed.
+Print Assumptions C16_merge_refuted.
+
 (* Non-vacuity: R = Imply(All(x, Any(a,b)), AtLeast(1, [k:(-3,3), Xor(a,b), XNor(c,d)], sign=-1), id="R") — nested,
    explicit non-default sign, integer leaf, explicit and generated ids — meets every hypothesis of C16_sem_build; the
    document carries "sign" and only the explicit id; the rebuilt model evaluates like the original (0 at x=a=c=d=1,
@@ -173,7 +303,7 @@ Definition c16_env (k : Z) : ident -> Z := fun i => if String.eqb i "k" then k e
 Definition c16_rt : option prop :=
   match to_json c16_g 10 (build c16_g c16_f) with Some j => from_json c16_g false 10 j | None => None end.
 Example C16_nonvacuous :
-  jwf c16_g c16_f /\ xnor_leaves c16_f /\ fok (c16_env 3) c16_f /\ fok (c16_env (-3)) c16_f /\
+  jwf c16_g false c16_f /\ xnor_leaves c16_f /\ fok (c16_env 3) c16_f /\ fok (c16_env (-3)) c16_f /\
   (exists j p', to_json c16_g 10 (build c16_g c16_f) = Some j /\ from_json c16_g false 10 j = Some p' /\
      all_unmerged c16_g false 10 j = true /\
      (exists f, j = JObj f /\ alookup "id" f = Some (JStr "R") /\
@@ -189,3 +319,32 @@ Proof.
   eexists. split; [reflexivity|]. split; [reflexivity|]. eexists. split; [reflexivity|]. split; reflexivity.
 Qed.
 Print Assumptions C16_nonvacuous.
+
+(* Non-vacuity (configurator): StingyConfigurator(cc.Xor(x,y,z, default=[x]), Imply(All(x), cc.Any(p,q,Any(r,s), default=[q], id=R)),
+   cc.Any(u,w), id=cfg) — cc.Xor with a default, the nested form of cc.Any under an Imply — meets every hypothesis of
+   C16_cfg_build; the documents carry the defaults; it evaluates to 0 at x=y=1 (two of the Xor) and to 1 at x=q=u=1. *)
+Definition c16_L (i : string) : form := FLeaf i 0 1.
+Definition c16_cf_rules : list form :=
+  [FCcXor None [("x", (0, 1))] [c16_L "x"; c16_L "y"; c16_L "z"];
+   FImply None (FAll None [c16_L "x"]) (FCcAny (Some ("R", (0, 1))) [("q", (0, 1))] [c16_L "p"; c16_L "q"; FAny None [c16_L "r"; c16_L "s"]]);
+   FCcAny None [] [c16_L "u"; c16_L "w"]].
+Definition c16_cf : form := FStingy (Some ("cfg", (0, 1))) c16_cf_rules.
+Definition c16_cenv (y : Z) : ident -> Z := fun i => if String.eqb i "y" then y else if String.eqb i "x" then 1 else if String.eqb i "q" then 1 else if String.eqb i "u" then 1 else 0.
+Example C16_cfg_nonvacuous :
+  jwf c16_g true c16_cf /\ xnor_leaves c16_cf /\ fok (c16_cenv 1) c16_cf /\ fok (c16_cenv 0) c16_cf /\
+  (forall i, 0 <= c16_cenv 1 i) /\ (forall i, 0 <= c16_cenv 0 i) /\
+  (exists j p', to_json c16_g 10 (build c16_g c16_cf) = Some j /\ stingy_from_json c16_g 10 j = Some p' /\
+     stingy_unmerged c16_g 10 j = true /\
+     eval (c16_cenv 1) (build c16_g c16_cf) = 0 /\ eval (c16_cenv 1) p' = 0 /\
+     eval (c16_cenv 0) (build c16_g c16_cf) = 1 /\ eval (c16_cenv 0) p' = 1 /\
+     map (fun c => m_default (meta_of c)) (children p') = map (fun c => m_default (meta_of c)) (children (build c16_g c16_cf))).
+Proof.
+  split; [unfold c16_cf, c16_cf_rules; cbn [jwf]; repeat split; try (vm_compute; lia); vm_compute; reflexivity|].
+  split; [vm_compute; tauto|].
+  split; [unfold c16_cf, c16_cf_rules, c16_L; cbn [fok]; repeat split; try (vm_compute; discriminate); auto|].
+  split; [unfold c16_cf, c16_cf_rules, c16_L; cbn [fok]; repeat split; try (vm_compute; discriminate); auto|].
+  split; [intros i; unfold c16_cenv; repeat case_if; lia|]. split; [intros i; unfold c16_cenv; repeat case_if; lia|].
+  eexists. eexists. split; [vm_compute; reflexivity|]. split; [vm_compute; reflexivity|].
+  vm_compute. auto 10.
+Qed.
+Print Assumptions C16_cfg_nonvacuous.
